@@ -272,9 +272,10 @@ REQUEST_ROOTS = [('Server', 'process'), ('Server', 'process_request'), ('Server'
 # what the inventory is expected to be.  (file regex, function regex, kinds)
 EXPECTED_SHARED = [
     (r'^thread_pool/mod\.rs$',                   r'.*',                          {'Arc', 'Mutex'}),
-    (r'^entry_point/mod\.rs$',                   r'^set_default_values$',        {'env::set_var'}),
-    (r'^entry_point/command_line_args/mod\.rs$', r'^(CommandLineArgument::)?set_environment_variable$', {'env::set_var'}),
-    (r'^entry_point/(config_file|environment_variables)/mod\.rs$', r'^(override_|read_)\w+$', {'env::set_var'}),
+    # start-up code: any function of entry_point/ may write the process environment (a refactoring that moves the eleven
+    # set_var blocks into a helper is not a new shared-state item) - as long as it is NOT reachable from the request entry
+    # points, which the rule below checks for every env mutation
+    (r'^entry_point/',                           r'.*',                          {'env::set_var'}),
     (r'^server/mod\.rs$',                        r'^(Server::)?setup$',          {'env::set_var'}),
     (r'^main\.rs$',                              r'^main$',                      {'env::set_var'}),
 ]
